@@ -152,6 +152,25 @@ func checkC08(c caseC08) (Outcome, error) {
 			}
 		}
 	}
+	// The same through the real context and a real file: the bytes on disk after a mutating
+	// operation that changes nothing are the bytes that were there before.
+	if len(c.Doc.Records) > 0 {
+		h := newHarness(goTime(model.DaysFromCivil(2024, 5, 5), 600), "")
+		defer h.Close()
+		file := h.WriteFile("noop.klg", text)
+		r0 := c.Doc.Records[len(c.Doc.Records)/2].Date
+		if d, derr := klog.NewDate(r0.Y, r0.M, r0.D); derr == nil {
+			_, rerr := h.Ctx().ReconcileFile(app.FileOrBookmarkName(file), []reconciling.Creator{reconciling.NewReconcilerAtRecord(d)},
+				func(*reconciling.Reconciler) error { return nil })
+			if rerr != nil {
+				return out, fmt.Errorf("no-op ReconcileFile at %s failed: %s (%s)", r0.Lit(), rerr.Error(), rerr.Details())
+			}
+			if after, _ := h.ReadFile("noop.klg"); after != text {
+				return out, fmt.Errorf("a mutating operation that changes nothing wrote back a different file:\n%q\n->\n%q", text, after)
+			}
+			out.Label("noop-through-real-file")
+		}
+	}
 	mixed, wsBlank := false, false
 	eols := map[string]bool{}
 	for _, l := range lines {
